@@ -24,7 +24,7 @@ ASSUMPTIONS = ["K-layer tolerance |a-b| <= 1e-10 + 1e-8 max(|a|,|b|) between mod
 def scenario(ctx, i):
     r = ctx.rng
     C, D, N = gen.dims(ctx, nmax_q=12, nmax_t=40)
-    kind = ["bulk", "tail", "mixed", "floor", "bulk", "highdim", "separated", "tinyweight", "underflow_edge"][int(r.integers(0, 9))]
+    kind = ["bulk", "tail", "mixed", "floor", "bulk", "highdim", "separated", "tinyweight", "underflow_edge", "tie"][int(r.integers(0, 10))]
     if kind == "highdim":
         # many features with a common scale far from 1: the log-normaliser sum_d log(2 pi var_d) is of order +-1e3,
         # its exponential is far outside the double range (the density is fine: only its log is ever needed)
@@ -35,6 +35,17 @@ def scenario(ctx, i):
     if kind == "separated" and C >= 2:
         # component means 1e4 .. 1e8 standard deviations apart (each sample is in the bulk of one component)
         m = m + np.sqrt(v) * (10.0 ** r.uniform(4, 8)) * r.choice([-1.0, 1.0], size=(C, 1)) * np.arange(C)[:, None]
+    if kind == "tie":
+        # two components that are exactly tied for (some of) the samples: a duplicated component, or a mirror pair with samples on
+        # the symmetry plane — the mixture density there is 2 x the common term, not 1 x
+        C = max(C, 2)
+        w, m, v, sc = gen.gmm_params(r, C, D)
+        w = np.array(w, dtype=float)
+        w[0] = w[1] = 0.5 * (w[0] + w[1])
+        v[1] = v[0]
+        m[1] = m[0]
+        if r.random() < 0.5:
+            m[0, 0], m[1, 0] = -abs(m[0, 0]) - 0.5, abs(m[0, 0]) + 0.5
     tiny = None
     if kind == "tinyweight" and C >= 2:
         # a positive weight far below machine epsilon (ML training gives a component without data the weight eps / n_samples):
@@ -66,6 +77,8 @@ def scenario(ctx, i):
             z = r.normal(size=D)
             z = z / np.linalg.norm(z) * np.sqrt(max(2 * (L + np.log(w[c]) - 0.5 * gn), 1.0))
             x[k_] = m[c] + np.sqrt(v[c]) * z
+    if kind == "tie" and m[0, 0] != m[1, 0]:
+        x[::2, 0] = 0.0
     if tiny is not None:
         x[: max(1, N // 2)] = m[tiny] + np.sqrt(v[tiny]) * r.normal(size=(max(1, N // 2), D))
     if kind == "bulk":
